@@ -289,7 +289,24 @@ class _D(ast.NodeTransformer):
     def visit_Call(self, node):
         return node
 
+    def _unstar(self, call):
+        """f(*t) with t bound once to a literal tuple of pure elements  ->  f(t0, t1, ...)"""
+        if not any(isinstance(a, ast.Starred) for a in call.args):
+            return
+        new = []
+        for a in call.args:
+            v = a.value if isinstance(a, ast.Starred) else None
+            if isinstance(v, ast.Name) and v.id in getattr(self, "lits", {}):
+                v = self.lits[v.id]
+            if isinstance(a, ast.Starred) and isinstance(v, (ast.Tuple, ast.List)) and _pure_lit(v):
+                new.extend(copy.deepcopy(e) for e in v.elts)
+            else:
+                new.append(a)
+        call.args = new
+
     def visit_Expr(self, node):
+        if isinstance(node.value, ast.Call):
+            self._unstar(node.value)
         v = node.value
         # setattr(o, "name", v)  ->  o.name = v
         if isinstance(v, ast.Call) and isinstance(v.func, ast.Name) and v.func.id == "setattr" and len(v.args) == 3 and not v.keywords \
@@ -403,6 +420,14 @@ class _Functional(ast.NodeTransformer):
         if isinstance(fn, ast.Call) and (ast.unparse(fn.func) in ("attrgetter", "operator.attrgetter")) and len(fn.args) == 1 \
                 and isinstance(fn.args[0], ast.Constant) and isinstance(fn.args[0].value, str) and fn.args[0].value.isidentifier():
             return ast.Attribute(value=arg, attr=fn.args[0].value, ctx=ast.Load())
+        # attrgetter("a", "b", ...)(x)  ->  (x.a, x.b, ...)
+        if isinstance(fn, ast.Call) and (ast.unparse(fn.func) in ("attrgetter", "operator.attrgetter")) and len(fn.args) > 1 \
+                and all(isinstance(a, ast.Constant) and isinstance(a.value, str) and a.value.isidentifier() for a in fn.args) \
+                and isinstance(arg, (ast.Name, ast.Attribute)):
+            return ast.Tuple(elts=[ast.Attribute(value=copy.deepcopy(arg), attr=a.value, ctx=ast.Load()) for a in fn.args], ctx=ast.Load())
+        # X.__getitem__(k)  ->  X[k]
+        if isinstance(fn, ast.Attribute) and fn.attr == "__getitem__":
+            return ast.Subscript(value=fn.value, slice=arg, ctx=ast.Load())
         # attrgetter("a" if c else "b")(x)  ->  x.a if c else x.b
         if isinstance(fn, ast.Call) and (ast.unparse(fn.func) in ("attrgetter", "operator.attrgetter")) and len(fn.args) == 1 \
                 and isinstance(fn.args[0], ast.IfExp) and all(isinstance(x, ast.Constant) and isinstance(x.value, str) and x.value.isidentifier()
